@@ -24,7 +24,9 @@
 (*   unused expression form x statement position (value not used)          *)
 (*   unused2 (thorough tier) ordered pairs of forms in an unused tuple     *)
 (*   size   program shape x size N                                         *)
-(*   ctl    loop control transfers x enclosing construct                   *)
+(*   ctl    control transfers x placement                                  *)
+(*   ctlfn  transfer x function flavour x enclosing construct x purity     *)
+(*   dead   transfer not last in its block x follower x block x function   *)
 (*                                                                         *)
 (* Characters that do not survive TLC's string handling (CR, NUL, non-     *)
 (* ASCII) are written as the placeholder @Uhhhh@ (hex code point); the     *)
@@ -567,10 +569,152 @@ CtlCase(c, pos) == MkCase("ctl", c.cls, pos, 0,
 CtlCases == Grid(CtlKinds, <<"start", "helper">>, CtlCase)
 
 ---------------------------------------------------------------------------
-BaseCases == NameCases \o CNameCases \o StrCases \o NumCases \o UCases \o SizeCases \o CtlCases
-Cases == IF Thorough THEN BaseCases \o U2Cases ELSE BaseCases
+(* Control transfers x FUNCTION FLAVOUR x enclosing construct (family ctlfn): a loop around a function literal is   *)
+(* not a loop of that function, whatever the literal looks like (`fn`, `pu`, blob method, immediately invoked,     *)
+(* passed as an argument, pure closure inside a pure function) and wherever the literal is written (loop with and  *)
+(* without `do`, nested loops, if / else / case arm inside a loop).  Whether the compiler accepts a cell is not    *)
+(* C06's business (`must` only feeds the vacuity guard); an accepted cell must load.                               *)
+Map(seq, F(_)) == [i \in 1..Len(seq) |-> F(seq[i])]
+Pair(x, y) == <<x, y>>
+CfTops == <<"A :: blob { m: fn -> void }", "AP :: blob { m: pu -> void }", "E :: enum", "    X int,", "    Y,", "end",
+            "h :: fn c: fn -> void do", "    c()", "end", "hp :: pu c: pu -> void do", "    c()", "end">>
+CfTransfers == <<"break", "continue", "ret">>
+CfFlavours == <<"direct", "fn-def", "pu-def", "method-fn", "method-pu", "iife-fn", "iife-pu", "arg-fn", "arg-pu",
+                "fn-in-fn", "pu-in-pu-def", "loop-in-fn", "loop-in-pu">>
+PureFlavours == {"direct", "pu-def", "method-pu", "iife-pu", "arg-pu", "pu-in-pu-def", "loop-in-pu"}
+CfStmts(f, t) ==
+  CASE f = "direct" -> <<t>>
+    [] f = "fn-def" -> <<"k :: fn do", "    " \o t, "end", "k()">>
+    [] f = "pu-def" -> <<"k :: pu do", "    " \o t, "end", "k()">>
+    [] f = "method-fn" -> <<"a :: A { m: fn do", "    " \o t, "end }", "a.m()">>
+    [] f = "method-pu" -> <<"a :: AP { m: pu do", "    " \o t, "end }", "a.m()">>
+    [] f = "iife-fn" -> <<"(fn do", "    " \o t, "end)()">>
+    [] f = "iife-pu" -> <<"(pu do", "    " \o t, "end)()">>
+    [] f = "arg-fn" -> <<"h(fn do", "    " \o t, "end)">>
+    [] f = "arg-pu" -> <<"hp(pu do", "    " \o t, "end)">>
+    [] f = "fn-in-fn" -> <<"k :: fn do", "    q :: fn do", "        " \o t, "    end", "    q()", "end", "k()">>
+    [] f = "pu-in-pu-def" -> <<"k :: pu do", "    q :: pu do", "        " \o t, "    end", "    q()", "end", "k()">>
+    [] f = "loop-in-fn" -> <<"k :: fn do", "    loop true do", "        " \o t, "        break", "    end", "end", "k()">>
+    [] f = "loop-in-pu" -> <<"k :: pu do", "    loop true do", "        " \o t, "        break", "    end", "end", "k()">>
+CfConstructs == <<"none", "loop-do", "loop-nodo", "nested-loops", "if-in-loop", "else-in-loop", "case-arm-in-loop",
+                  "case-else-in-loop", "loop-in-if">>
+LoopConstructs == {"loop-do", "loop-nodo", "nested-loops", "if-in-loop", "else-in-loop", "case-arm-in-loop",
+                   "case-else-in-loop", "loop-in-if"}
+CfConstruct(c, st) ==
+  CASE c = "none" -> st
+    [] c = "loop-do" -> <<"loop true do">> \o Ind(st \o <<"break">>) \o <<"end">>
+    [] c = "loop-nodo" -> <<"loop true " \o st[1]>> \o Tail(st)         \* one statement, no `do`
+    [] c = "nested-loops" -> <<"loop true do", "    loop true do">> \o Ind(Ind(st \o <<"break">>)) \o <<"    end", "    break", "end">>
+    [] c = "if-in-loop" -> <<"loop true do", "    if b do">> \o Ind(Ind(st)) \o <<"    end", "    break", "end">>
+    [] c = "else-in-loop" -> <<"loop true do", "    if b do", "        c0 :: 0", "    else">> \o Ind(Ind(st)) \o <<"    end", "    break", "end">>
+    [] c = "case-arm-in-loop" -> <<"loop true do", "    case e do", "        X v ->">> \o Ind(Ind(Ind(st)))
+                                 \o <<"        end", "        else end", "    end", "    break", "end">>
+    [] c = "case-else-in-loop" -> <<"loop true do", "    case e do", "        X v ->", "            c1 :: v", "        end", "        else">> \o Ind(Ind(Ind(st)))
+                                  \o <<"        end", "    end", "    break", "end">>
+    [] c = "loop-in-if" -> <<"if b do", "    loop true do">> \o Ind(Ind(st \o <<"break">>)) \o <<"    end", "end">>
+CfContexts == <<"fn", "pu">>       \* the construct is written in start (impure) / in a pure helper function
+CfEnv == <<"b :: true", "e :: E.X 1">>
+CfText(t, f, w, c) ==
+    LET body == CfEnv \o CfConstruct(c, CfStmts(f, t)) IN
+    IF w = "fn" THEN Prog(CfTops, body \o <<"print(1)">>)
+    ELSE Prog(CfTops \o <<"w :: pu do">> \o Ind(body) \o <<"end">>, <<"w()">>)
+\* without `do` the loop takes exactly one statement
+CfApplicable(q) == q[2][2] # "loop-nodo" \/ q[1][2] \in {"direct", "arg-fn", "arg-pu"}
+CfMust(t, f, w, c) ==
+    /\ w = "fn" \/ f \in PureFlavours
+    /\ \/ t = "ret"
+       \/ f = "direct" /\ c \in LoopConstructs
+       \/ f \in {"loop-in-fn", "loop-in-pu"}
+CfCase(q) == LET t == q[1][1]  f == q[1][2]  w == q[2][1]  c == q[2][2] IN
+             MkCase("ctlfn", t \o "/" \o f, w \o "/" \o c, 0, Main(CfText(t, f, w, c)), "", CfMust(t, f, w, c))
+CfCells == SelectSeq(Grid(Grid(CfTransfers, CfFlavours, Pair), Grid(CfContexts, CfConstructs, Pair), Pair), CfApplicable)
+CfCases == Map(CfCells, CfCase)
+
+---------------------------------------------------------------------------
+(* DEAD CODE (family dead): a transfer that is NOT the last statement of its block, followed by every kind of      *)
+(* statement, at every block position, in every kind of function body.  Whatever the emitter does with code that   *)
+(* cannot run (emit it, wrap the transfer, leave the rest out), blocks must stay balanced.                         *)
+DeadTransfers == <<[cls |-> "ret", line |-> "ret", int |-> FALSE, loop |-> FALSE],
+                   [cls |-> "ret-value", line |-> "ret 1", int |-> TRUE, loop |-> FALSE],
+                   [cls |-> "break", line |-> "break", int |-> FALSE, loop |-> TRUE],
+                   [cls |-> "continue", line |-> "continue", int |-> FALSE, loop |-> TRUE],
+                   [cls |-> "unreachable", line |-> "<!>", int |-> FALSE, loop |-> FALSE]>>
+DeadKinds == <<"print", "value", "const-def", "fn-def", "fn-def-int", "fn-def-nested", "fn-def-if-loop", "pu-def",
+               "lambda-arg", "iife", "blob-methods", "do-block", "if", "if-else", "if-elif-else", "if-expr", "case",
+               "case-expr", "loop", "loop-continue", "and", "ret-again", "unreachable", "several">>
+FnDefLines == <<"g :: fn do", "    print(1)", "end", "g()">>
+IfElseLines == <<"if b do", "    print(1)", "else", "    print(2)", "end">>
+LoopLines == <<"loop true do", "    break", "end">>
+DeadFollow(k, d) ==
+  CASE k = "print" -> <<"print(1)">>
+    [] k = "value" -> <<"2">>
+    [] k = "const-def" -> <<"c :: 5", "print(c)">>
+    [] k = "fn-def" -> FnDefLines
+    [] k = "fn-def-int" -> <<"g :: fn -> int do", "    1", "end", "print(g())">>
+    [] k = "fn-def-nested" -> <<"g :: fn do", "    q :: fn do", "        print(1)", "    end", "    q()", "end", "g()">>
+    [] k = "fn-def-if-loop" -> <<"g :: fn do", "    if b do", "        loop true do", "            break", "        end", "    end", "end", "g()">>
+    [] k = "pu-def" -> <<"g :: pu -> int do", "    1", "end", "print(g())">>
+    [] k = "lambda-arg" -> <<"h(fn do", "    print(1)", "end)">>
+    [] k = "iife" -> <<"(fn do", "    print(1)", "end)()">>
+    [] k = "blob-methods" -> <<"a2 :: A { m: fn do", "    print(1)", "end }", "a2.m()">>
+    [] k = "do-block" -> <<"do", "    print(1)", "end">>
+    [] k = "if" -> <<"if b do", "    print(1)", "end">>
+    [] k = "if-else" -> IfElseLines
+    [] k = "if-elif-else" -> <<"if b do", "    print(1)", "elif b do", "    print(2)", "else", "    print(3)", "end">>
+    [] k = "if-expr" -> <<"y :: if b do 1 else 2 end", "print(y)">>
+    [] k = "case" -> <<"case e do", "    X v -> print(v) end", "    else print(0) end", "end">>
+    [] k = "case-expr" -> <<"y :: case e do", "    X v -> v end", "    else 0 end", "end", "print(y)">>
+    [] k = "loop" -> LoopLines
+    [] k = "loop-continue" -> <<"z := 0", "loop z < 2 do", "    z += 1", "    continue", "end">>
+    [] k = "and" -> <<"b and b", "print(1)">>
+    [] k = "ret-again" -> <<IF d.int THEN "ret 2" ELSE "ret">>
+    [] k = "unreachable" -> <<"<!>">>
+    [] k = "several" -> FnDefLines \o IfElseLines \o LoopLines \o <<"print(4)">>
+DeadBlocks == <<"plain", "do-block", "if", "else", "both", "elif", "case-arm", "case-else", "case-all", "loop", "if-in-loop">>
+DeadBlock(bk, seq) ==
+  CASE bk = "plain" -> seq
+    [] bk = "do-block" -> <<"do">> \o Ind(seq) \o <<"end">>
+    [] bk = "if" -> <<"if b do">> \o Ind(seq) \o <<"end">>
+    [] bk = "else" -> <<"if b do", "    print(0)", "else">> \o Ind(seq) \o <<"end">>
+    [] bk = "both" -> <<"if b do">> \o Ind(seq) \o <<"else">> \o Ind(seq) \o <<"end">>
+    [] bk = "elif" -> <<"if b do", "    print(0)", "elif b do">> \o Ind(seq) \o <<"else", "    print(3)", "end">>
+    [] bk = "case-arm" -> <<"case e do", "    X v ->">> \o Ind(Ind(seq)) \o <<"    end", "    else end", "end">>
+    [] bk = "case-else" -> <<"case e do", "    X v -> print(v) end", "    else">> \o Ind(Ind(seq)) \o <<"    end", "end">>
+    [] bk = "case-all" -> <<"case e do", "    X v ->">> \o Ind(Ind(seq)) \o <<"    end", "    Y ->">> \o Ind(Ind(seq))
+                          \o <<"    end", "    else">> \o Ind(Ind(seq)) \o <<"    end", "end">>
+    [] bk = "loop" -> <<"loop true do">> \o Ind(seq) \o <<"end">>
+    [] bk = "if-in-loop" -> <<"loop true do", "    print(5)", "    if b do">> \o Ind(Ind(seq)) \o <<"    end", "    break", "end">>
+DeadWraps == <<"top", "closure", "method", "lambda", "iife">>
+DeadTops == <<"A :: blob { m: fn -> void }", "AI :: blob { m: fn -> int }", "E :: enum", "    X int,", "    Y,", "end",
+              "h :: fn c: fn -> void do", "    c()", "end", "hi :: fn c: fn -> int do", "    print(c())", "end">>
+DeadText(d, k, w, bk) ==
+    LET seq == <<d.line>> \o DeadFollow(k, d)
+        blk == DeadBlock(bk, seq)
+        inloop == IF d.loop /\ bk \notin {"loop", "if-in-loop"} THEN <<"loop true do">> \o Ind(blk \o <<"break">>) \o <<"end">> ELSE blk
+        body == CfEnv \o inloop \o <<IF d.int THEN "3" ELSE "print(9)">>
+        sig == IF d.int THEN "fn -> int do" ELSE "fn do" IN
+    CASE w = "top" -> Prog(DeadTops \o <<"w :: " \o sig>> \o Ind(body) \o <<"end">>, <<IF d.int THEN "print(w())" ELSE "w()">>)
+      [] w = "closure" -> Prog(DeadTops, <<"k :: " \o sig>> \o Ind(body) \o <<"end", IF d.int THEN "print(k())" ELSE "k()">>)
+      [] w = "method" -> Prog(DeadTops, <<"am :: " \o (IF d.int THEN "AI" ELSE "A") \o " { m: " \o sig>> \o Ind(body)
+                                        \o <<"end }", IF d.int THEN "print(am.m())" ELSE "am.m()">>)
+      [] w = "lambda" -> Prog(DeadTops, <<(IF d.int THEN "hi(" ELSE "h(") \o sig>> \o Ind(body) \o <<"end)">>)
+      [] w = "iife" -> Prog(DeadTops, <<(IF d.int THEN "print((" ELSE "(") \o sig>> \o Ind(body) \o <<IF d.int THEN "end)())" ELSE "end)()">>)
+\* quick tier: the full grid transfer x follower x block in a top-level function, and transfer x follower in every other
+\* kind of function body at the plain position; the thorough tier takes the whole four-way product
+DeadInQuick(q) == q[2][1] = "top" \/ q[2][2] = "plain"
+DeadCase(q) == LET d == q[1][1]  k == q[1][2]  w == q[2][1]  bk == q[2][2] IN
+               MkCase("dead", d.cls \o "/" \o k, w \o "/" \o bk, 0, Main(DeadText(d, k, w, bk)), "", TRUE)
+DeadAllCells == Grid(Grid(DeadTransfers, DeadKinds, Pair), Grid(DeadWraps, DeadBlocks, Pair), Pair)
+DeadNotInQuick(q) == ~DeadInQuick(q)
+DeadCases == Map(SelectSeq(DeadAllCells, DeadInQuick), DeadCase)
+DeadRestCases == Map(SelectSeq(DeadAllCells, DeadNotInQuick), DeadCase)
+
+---------------------------------------------------------------------------
+BaseCases == NameCases \o CNameCases \o StrCases \o NumCases \o UCases \o SizeCases \o CtlCases \o CfCases
+\* the quick universe is a PREFIX of the thorough one: an index means the same case in both tiers
+Cases == IF Thorough THEN BaseCases \o DeadCases \o DeadRestCases \o U2Cases ELSE BaseCases \o DeadCases
 NCases == Len(Cases)
 Case(i) == Cases[i]
-Families == IF Thorough THEN <<"name", "cname", "str", "num", "unused", "size", "ctl", "unused2">>
-            ELSE <<"name", "cname", "str", "num", "unused", "size", "ctl">>
+Families == IF Thorough THEN <<"name", "cname", "str", "num", "unused", "size", "ctl", "ctlfn", "dead", "unused2">>
+            ELSE <<"name", "cname", "str", "num", "unused", "size", "ctl", "ctlfn", "dead">>
 =============================================================================
